@@ -9,20 +9,24 @@ import (
 	"github.com/hashicorp/nodeenrollment"
 	"github.com/hashicorp/nodeenrollment/types"
 	"github.com/hashicorp/nodeenrollment/zzverif/vf"
+	"github.com/hashicorp/nodeenrollment/zzverif/vfs"
 	"google.golang.org/protobuf/proto"
 )
 
 var errGate = errors.New("gate reached")
 
-// vfStore is a minimal Storage; loading roots returns errGate so that the
-// harness can observe "verification gate passed" without running the
-// certificate-minting tail (guidance: end paths after the check they guard).
-type vfStore struct{ nodes []*types.NodeInformation }
+// vfGateStore holds node records (served by key ID and, when loader is set, by node ID in list order).
+// Loading the roots returns errGate, so the harness observes "verification gate passed" without running
+// the certificate-minting tail (guidance: end paths after the check they guard); the full tail runs in C02/C04.
+type vfGateStore struct {
+	nodes         []*types.NodeInformation
+	emptyNotFound bool
+}
 
-func (s *vfStore) Store(ctx context.Context, m nodeenrollment.MessageWithId) error  { return nil }
-func (s *vfStore) Remove(ctx context.Context, m nodeenrollment.MessageWithId) error { return nil }
-func (s *vfStore) List(ctx context.Context, m proto.Message) ([]string, error)     { return nil, nil }
-func (s *vfStore) Load(ctx context.Context, m nodeenrollment.MessageWithId) error {
+func (s *vfGateStore) Store(ctx context.Context, m nodeenrollment.MessageWithId) error  { return nil }
+func (s *vfGateStore) Remove(ctx context.Context, m nodeenrollment.MessageWithId) error { return nil }
+func (s *vfGateStore) List(ctx context.Context, m proto.Message) ([]string, error)     { return nil, nil }
+func (s *vfGateStore) Load(ctx context.Context, m nodeenrollment.MessageWithId) error {
 	switch t := m.(type) {
 	case *types.NodeInformation:
 		for _, n := range s.nodes {
@@ -39,58 +43,108 @@ func (s *vfStore) Load(ctx context.Context, m nodeenrollment.MessageWithId) erro
 	return nodeenrollment.ErrNotFound
 }
 
-type vfNodeStore struct{ *vfStore }
+type vfGateNodeIdStore struct{ *vfGateStore }
 
-func (s *vfNodeStore) LoadByNodeId(ctx context.Context, m nodeenrollment.MessageWithNodeId) error {
+func (s *vfGateNodeIdStore) LoadByNodeId(ctx context.Context, m nodeenrollment.MessageWithNodeId) error {
 	set := m.(*types.NodeInformationSet)
 	var out []*types.NodeInformation
 	for _, n := range s.nodes {
 		if n.NodeId == set.NodeId {
-			out = append(out, n)
+			out = append(out, proto.Clone(n).(*types.NodeInformation))
 		}
 	}
-	if len(out) == 0 {
+	if len(out) == 0 && s.emptyNotFound {
 		return nodeenrollment.ErrNotFound
 	}
-	set.Nodes = out
+	set.Nodes = out // a storage may also report "no records" as an empty set
 	return nil
 }
 
-func verifC05(nrec int, loader bool, nodeId string) {
-	ctx := context.Background()
-	base := &vfStore{}
-	var keys []int
-	for i := 0; i < nrec; i++ {
-		k := vf.Int("reckey", 0, 2)
-		pk := vf.Pkix(k)
-		id, _ := nodeenrollment.KeyIdFromPkix(pk)
-		base.nodes = append(base.nodes, &types.NodeInformation{Id: id, CertificatePublicKeyPkix: pk, NodeId: "n1"})
-		keys = append(keys, k)
+// vfSigChoice is one of the adversary's signatures over msg: by a universe key, or raw bytes of any length.
+func vfSigChoice(label string, msg []byte) (sig []byte, key int) {
+	if vf.Bool(label + "-is-raw-bytes") {
+		return vf.Bytes(label+"-raw", 80), -1
 	}
-	nonce := vf.Bytes("nonce", 40)
-	nsig := vf.SigBy(vf.Int("nsigkey", -1, 2), nonce)
-	req := &types.GenerateServerCertificatesRequest{
-		CertificatePublicKeyPkix: vf.Pkix(vf.Int("reqkey", 0, 2)),
-		Nonce:                    nonce,
-		NonceSignature:           nsig,
-		NodeId:                   nodeId,
-	}
-	var st nodeenrollment.Storage = base
-	if loader {
-		st = &vfNodeStore{base}
-	}
-	_, err := GenerateServerCertificates(ctx, st, req)
-	if errors.Is(err, errGate) {
-		vf.Reach("gate-passed")
-		ok := false
-		for i := 0; i < nrec; i++ {
-			ok = vf.Or(ok, vf.SigOK(keys[i], nonce, nsig))
-		}
-		vf.Assert("verified-by-some-stored-record", ok)
-	} else {
-		vf.Reach("rejected")
-	}
+	key = vf.Int(label+"-key", 0, 3)
+	return vf.SigBy(key, msg), key
 }
 
-func VerifC05KeyIdPath()  { verifC05(2, false, "") }
-func VerifC05NodeIdPath() { verifC05(2, true, "n1") }
+// C05: the verification gate of GenerateServerCertificates for nrec stored records (arbitrary universe keys,
+// arbitrary grouping under node IDs "n1"/"n2", in this order), either lookup path, and nonce / client-state
+// signatures chosen independently.
+func verifC05(nrec int, loader bool) {
+	ctx := context.Background()
+	base := &vfGateStore{emptyNotFound: vf.Bool("storage-reports-no-records-as-not-found")}
+	keys, groups := make([]int, nrec), make([]string, nrec)
+	for i := 0; i < nrec; i++ {
+		keys[i] = vf.Int("reckey", 0, 2)
+		for j := 0; j < i; j++ {
+			vf.Assume(keys[j] != keys[i]) // one record per key (records are stored under their key ID)
+		}
+		groups[i] = "n1"
+		if vf.Bool("record-under-other-node-id") {
+			groups[i] = "n2"
+		}
+		pk := vf.Pkix(keys[i])
+		id, _ := nodeenrollment.KeyIdFromPkix(pk)
+		base.nodes = append(base.nodes, &types.NodeInformation{Id: id, CertificatePublicKeyPkix: pk, NodeId: groups[i]})
+	}
+	nonce := vf.Bytes("nonce", 40)
+	nsig, nkey := vfSigChoice("noncesig", nonce)
+	reqKey := vf.Int("reqkey", 0, 3)
+	req := &types.GenerateServerCertificatesRequest{CertificatePublicKeyPkix: vf.Pkix(reqKey), Nonce: nonce, NonceSignature: nsig}
+	var state []byte
+	skey := -1
+	if vf.Bool("has-client-state") {
+		var err error
+		if state, err = proto.Marshal(vfs.State(vf.String("state-value", 8))); err != nil {
+			panic(err)
+		}
+		req.ClientState = state
+		req.ClientStateSignature, skey = vfSigChoice("statesig", state)
+	}
+	nodeId := ""
+	switch vf.Int("node-id-hint", 0, 2) {
+	case 1:
+		nodeId = "n1"
+	case 2:
+		nodeId = "unknown-node"
+	}
+	req.NodeId = nodeId
+	var st nodeenrollment.Storage = base
+	if loader {
+		st = &vfGateNodeIdStore{base}
+	}
+	resp, err := GenerateServerCertificates(ctx, st, req)
+
+	// the records the lookup is allowed to use
+	byNodeId := loader && nodeId != ""
+	verified := false
+	for i := 0; i < nrec; i++ {
+		inScope := keys[i] == reqKey
+		if byNodeId {
+			inScope = groups[i] == nodeId
+		}
+		ok := vf.And(len(nonce) > 0, keys[i] == nkey)
+		if len(state) > 0 {
+			ok = vf.And(ok, keys[i] == skey)
+		}
+		verified = vf.Or(verified, vf.And(inScope, ok))
+	}
+	if errors.Is(err, errGate) {
+		vf.Reach("gate-passed")
+		vf.Assert("verified-by-a-stored-record-in-scope", verified)
+	} else {
+		vf.Reach("rejected")
+		vf.Assert("rejection-is-an-error", err != nil)
+		vf.Assert("valid-signature-by-any-record-in-scope-passes", vf.Not(verified))
+	}
+	vf.Assert("no-response-without-success", vf.Implies(err != nil, resp == nil))
+}
+
+func VerifC05KeyIdPath1() { verifC05(1, false) }
+func VerifC05KeyIdPath2() { verifC05(2, false) }
+func VerifC05NodeIdPath0() { verifC05(0, true) }
+func VerifC05NodeIdPath1() { verifC05(1, true) }
+func VerifC05NodeIdPath2() { verifC05(2, true) }
+func VerifC05NodeIdPath3() { verifC05(3, true) }
